@@ -70,7 +70,7 @@ def run(ctx):
         "vector_states": tl.distinct, "vectors_replayed": summ["evaluations"], "vector_mismatches": len(summ["mismatches"]),
         "vector_mismatches_known_findings": len(summ["mismatches"]) - len(fresh),
         "vector_classes": summ["distinct"], "vector_samples": summ["samples"][:1],
-        "rule": cov.get("rule", "") + "; vectors = every element shape (name x namespace x id x from x nested stanza-named child) x every argument form (token reader, +start element, xml.Marshaler, xmlstream.Marshaler, xmlstream.WriterTo, each also with a start element, token writer, token writer flushing inside the element) x every session the call can be made on: kind (c2s, s2s, WebSocket, component) x role (initiated, received) x construction (the kind's own constructor, xmpp.NewSession / ReceiveSession + the kind's library Negotiator, a Negotiator of the application) - 19 real session constructions; the stream's content namespace is computed by the specification from the kind alone (Transmit.tla!ContentNS: jabber:client for c2s and WebSocket - RFC 7395: the framing namespace of <open/> is no content namespace and every frame is a document of its own, so the stanza names jabber:client itself -, jabber:server for s2s, jabber:component:accept for components), expectation computed by TLC from Transmit.tla!Complete",
+        "rule": cov.get("rule", "") + "; vectors = every element shape (name x namespace x id x from x nested stanza-named child; on one session per kind also: namespaced child elements at depth 2 and 3 whose start tokens carry the namespace as Name.Space / as an xmlns attribute / as both, as an xml.Decoder delivers them - the wire must re-parse to the same elements) x every argument form (token reader, +start element, xml.Marshaler, xmlstream.Marshaler, xmlstream.WriterTo, each also with a start element, token writer, token writer flushing inside the element) x every session the call can be made on: kind (c2s, s2s, WebSocket, component) x role (initiated, received) x construction (the kind's own constructor, xmpp.NewSession / ReceiveSession + the kind's library Negotiator, a Negotiator of the application) - 19 real session constructions; the stream's content namespace is computed by the specification from the kind alone (Transmit.tla!ContentNS: jabber:client for c2s and WebSocket - RFC 7395: the framing namespace of <open/> is no content namespace and every frame is a document of its own, so the stanza names jabber:client itself -, jabber:server for s2s, jabber:component:accept for components), expectation computed by TLC from Transmit.tla!Complete",
         "vector_sessions": summ.get("extra", {}).get("sessions", {}),
         "exhaustive": True,
     })
